@@ -19,6 +19,7 @@ import (
 	"fmt"
 	"math/rand"
 	"sort"
+	"strings"
 
 	"go.opentelemetry.io/otel/attribute"
 	sdktrace "go.opentelemetry.io/otel/sdk/trace"
@@ -486,6 +487,7 @@ func bufReplay(args []string) {
 	res := vh.NewResult()
 	var init BFull
 	vh.Must(json.Unmarshal(g.Edges[0].From, &init))
+	quota := map[string]int{}
 	for i, e := range g.Edges {
 		res.Evaluations++
 		pathRaw, ok := g.Path(i)
@@ -520,6 +522,13 @@ func bufReplay(args []string) {
 				res.Count("edges_downstream_of_a_reported_deviation", 1)
 				continue
 			}
+		}
+		// vh.Result lists at most 200 mismatches: keep a quota per (exposing step, differing
+		// component) so that a frequent (possibly known) deviation cannot crowd out another one
+		qk := ops[len(ops)-1].Op + "/" + strings.TrimRight(d, "0123456789")
+		if quota[qk]++; quota[qk] > 12 {
+			res.Count("edges_mismatch_beyond_class_quota", 1)
+			continue
 		}
 		res.AddMismatch(vh.Mismatch{Kind: "state", Case: init.Bufs, Path: ops[:len(ops)-1], Act: ops[len(ops)-1], Want: to.St, Got: got, Detail: d})
 		if i%499 == 0 {
